@@ -251,7 +251,7 @@ func c14topologyBody(strategy int) func() {
 		strat := pbredis.ReadStrategy(strategy)
 		s := vfStartStack(cl, vfSvcConfig(strat, nil, 0))
 		c := s.NewClient("c0")
-		keys := []string{cl.KeyInGroup("k", 0, 0), cl.KeyInGroup("k", 1, 0)}
+		keys := []string{cl.KeyInGroup("k", 0, 0), cl.KeyInGroup("{}k", 1, 0)}
 		m0, m1 := cl.Masters()[0], cl.Masters()[1]
 		var moved *cluster.Node
 		for _, n := range cl.Nodes {
@@ -402,7 +402,8 @@ func c14strategyBody(cs c14sCase) func() {
 		cur := pbredis.ReadStrategy(cs.Init)
 		s := vfStartStack(cl, vfSvcConfig(cur, nil, 0))
 		c := s.NewClient("c0")
-		keys := []string{cl.KeyInGroup("k", 0, 0), cl.KeyInGroup("k", 1, 0)}
+		// (the second key starts with an empty hash tag: the whole key decides its slot)
+		keys := []string{cl.KeyInGroup("k", 0, 0), cl.KeyInGroup("{}k", 1, 0)}
 		issue := func(cmds [][]string) {
 			for _, cmd := range cmds {
 				mark := len(cl.Log)
